@@ -14,6 +14,7 @@ CONSTANTS
   FDataSet = {0}
   LenSet = {5}
   CachedSet = {TRUE, FALSE}
+  DmgSet = {FALSE}
   KindSet = {"ok", "error"}
   Modes = {"direct"}
   DeliverAnyTime = FALSE
